@@ -4,7 +4,7 @@
 LEVEL = "other"
 TRUSTED = ['networkx condensation / topological order (A2)']
 ASSUMPTIONS = ['A4 (not proved): max-antichain = min-flow duality']
-EXPLANATION = ('Proved (PyVC, unbounded): greedy bottleneck peeling - graphutils.max_bottleneck_path (the DP over a topological order: B = infinity at sources, else the best min(B[pred], flow) over the predecessors, attained by maxInNeighbor; the recovered path runs from a source to the best sink along edges that each carry at least the reported, positive value and visits no node twice; (None, None) only if that value is 0) and stDAG.decompose_using_max_bottleneck (conservation: on every edge what remains plus the reported weights through it equals its flow and nothing negative remains, one positive weight per path). The same two units are also run natively on small concrete DAGs / conserving flows (bounded, labelled as such), where the maximum over all paths and the exact adding-up are decided by enumeration. the reverse-topological DP of stDAG.reachable_nodes_from establishes the fix-point equation R[u] = {u} + union of R[successors] for every node, and the table is memoised (a later query returns the same object). The other substrate queries have no unbounded proof. The property is decided by the BOUNDED stand-in: reachability tables of stDAG/stDiGraph vs BFS under varied query orders with warm and cold caches, per-edge max reachable value, is_scc_edge, maximum edge antichain vs brute force over all antichains, bottleneck peeling of conserving flows (rc/p_C17.py).')
+EXPLANATION = ('Proved (PyVC, unbounded): greedy bottleneck peeling - graphutils.max_bottleneck_path (the DP over a topological order: B = infinity at sources, else the best min(B[pred], flow) over the predecessors, attained by maxInNeighbor; the recovered path runs from a source to the best sink along edges that each carry at least the reported, positive value and visits no node twice; (None, None) only if that value is 0) and stDAG.decompose_using_max_bottleneck (conservation: on every edge what remains plus the reported weights through it equals its flow and nothing negative remains, one positive weight per path). Also proved: stDiGraph.compute_edge_max_reachable_value - local_out / local_in are max(0, weights of the edges leaving / entering the SCC), max_desc and max_anc satisfy the two fix-point equations over the condensation (pull along reversed topological order; push along topological order), and every edge gets max(own weight, max_desc[scc(head)], max_anc[scc(tail)]), nothing else is in the result. The same units are also run natively on small concrete DAGs / conserving flows (bounded, labelled as such), where the maximum over all paths, the exact adding-up and the equality of the fix-points with a plain search are decided by enumeration. the reverse-topological DP of stDAG.reachable_nodes_from establishes the fix-point equation R[u] = {u} + union of R[successors] for every node, and the table is memoised (a later query returns the same object). The other substrate queries have no unbounded proof. The property is decided by the BOUNDED stand-in: reachability tables of stDAG/stDiGraph vs BFS under varied query orders with warm and cold caches, per-edge max reachable value, is_scc_edge, maximum edge antichain vs brute force over all antichains, bottleneck peeling of conserving flows (rc/p_C17.py).')
 
 
 def units(tier):
